@@ -155,7 +155,9 @@ PROPERTIES = {
         "decided_by": "Proved (termination variants discharged): symbolic_attractor_test main loop (lexicographic variant over set cardinalities), "
                       "asp_greedy_retained_set_optimization, the recursion of _update_node_depth (measure nvars - number of fixed variables of the "
                       "node, decreasing along every edge), the fixed-point loop of percolate_space_strict (number of candidate variables), the "
-                      "successor-skipping loops of expand_dfs / expand_minimal_spaces, the simulation loop of compute_attractor_candidates; "
+                      "successor-skipping loops of expand_dfs / expand_minimal_spaces, the simulation loop of compute_attractor_candidates, the recursion of "
+                      "optimized_recursive_dnf_generator (size of the BDD support), the name-clash retry loop of sanitize_network_names (a clash needs "
+                      "an existing name of the candidate's length; every retry makes the candidate longer); "
                       "for-loops over finite collections terminate by construction of the iteration protocol.",
         "bounded": "every public operation under a per-case wall-clock limit and a counted work bound for the simulation rounds",
         "excluded": ["termination of clingo / AEON calls"],
@@ -192,10 +194,14 @@ PROPERTIES = {
         "decided_by": "Proved: every verified result is specified over the SEMANTICS of the network (EvalOn of update BDDs, Perc, trap spaces), never over formula "
                       "syntax, so logically equivalent presentations give the same values (function_eval, percolate_space_strict, percolate_space); "
                       "space_unique_key depends only on variable indices; place names are an injective encoding of (variable, polarity) on real strings; "
-                      "the generated ASP programs are sets of rules over those names.",
+                      "the generated ASP programs are sets of rules over those names; sanitize_network_names: every name of the result is sane, names that "
+                      "were sane are kept, variables and update functions are untouched, a name clash is resolved by retrying with a longer candidate "
+                      "(the retry loop terminates), and with check_only nothing is renamed and RuntimeError is raised only for a network with an "
+                      "unsanitised name.",
         "bounded": "metamorphic runs: rename / reorder / re-encode / negate, sanitisation clashes, three input formats",
-        "excluded": ["equality of the three AEON parsers", "sanitize_network_names (regular-expression rewriting) is outside the subset"],
-        "trusted": ["equivariance of the abstract diagram under renaming / reordering (not mechanised)"],
+        "excluded": ["equality of the three AEON parsers", "what the two regular expressions of sanitize_network_names match (assumed: AX_RE)"],
+        "trusted": ["equivariance of the abstract diagram under renaming / reordering (not mechanised)",
+                    "re.match / re.sub on the two literal patterns, '_' + name, BooleanNetwork.set_variable_name (AX_RE)"],
     },
     "C18": {
         "decided_by": "Proved: the abstract diagram below a node is a function of (network, node space): __init__, _ensure_node, _expand_one_node, "
